@@ -144,6 +144,9 @@ pub fn run_case(rep: &mut Report, p: &Params) {
     b.p2p = p.p2p;
     b.seed = p.seed;
     b.log_delay = [-2i8, 0, 3][rng.gen_range(0..3)];
+    // the configured delay asymmetry belongs to the slave-side computations only: nothing a master
+    // port emits may depend on it
+    b.asymmetry_units = [0i128, 0, 250 << 32, -(3000i128 << 32), 1i128 << 50, -(1i128 << 44)][rng.gen_range(0..6)];
     let built = match b.build() {
         Ok(x) => x,
         Err(e) => {
